@@ -345,6 +345,11 @@ func cmdCheck(args []string) int {
 			if v.Confirmed != "native" {
 				continue
 			}
+			if len(env.sqlMismatch) > 0 {
+				// the relational model behind this run disagrees with SQLite: nothing it reports is believed
+				inconclusive = append(inconclusive, fmt.Sprintf("violation withheld (relational model disagrees with SQLite): %s shape %d %s", v.Harness, v.Shape, v.Signature))
+				continue
+			}
 			kf := matchKnown(known, prop, v)
 			if kf != nil {
 				fmt.Printf("KNOWN-FINDING: property=%s %s [%s %s]\n", prop, kf.What, v.Harness, v.Signature)
@@ -358,6 +363,8 @@ func cmdCheck(args []string) int {
 			ev.violations++
 			exit = 1
 		}
+		inconclusive = append(inconclusive, env.sqlMismatch...)
+		ev.sqlTraces = env.sqlTraces
 	} else {
 		inconclusive = append(inconclusive, "native validation skipped (--no-native)")
 		for _, v := range allViol {
@@ -545,7 +552,9 @@ func runNative(env *Env, cases []nativeCase, hs []*Harness) ([]nativeResult, err
 	ovFile := filepath.Join(tmp, "overlay.json")
 	os.WriteFile(ovFile, ovb, 0o644)
 	bin := filepath.Join(tmp, "verifh.test")
-	goenv := append(os.Environ(), "GOFLAGS=-mod=mod", "GOPROXY=off", "GOSUMDB=off", "GOTOOLCHAIN=local", "VERIF_BATCH="+batch)
+	traceDir := filepath.Join(tmp, "sqltrace")
+	os.MkdirAll(traceDir, 0o755)
+	goenv := append(os.Environ(), "GOFLAGS=-mod=mod", "GOPROXY=off", "GOSUMDB=off", "GOTOOLCHAIN=local", "VERIF_BATCH="+batch, "VERIF_SQLTRACE_DIR="+traceDir)
 	build := exec.Command("go", "test", "-c", "-vet=off", "-o", bin, "-overlay", ovFile, harnessPkg)
 	build.Dir = repoDir
 	build.Env = goenv
@@ -567,7 +576,40 @@ func runNative(env *Env, cases []nativeCase, hs []*Harness) ([]nativeResult, err
 	if len(res) != len(cases) {
 		return nil, fmt.Errorf("native batch: %d results for %d cases", len(res), len(cases))
 	}
+	sqlCheck(env, traceDir)
 	return res, nil
+}
+
+// sqlCheck replays the statement traces written by harnesses that use the
+// relational model (verifh/memdb.go) on a real SQLite database (/verif/sqlcheck).
+func sqlCheck(env *Env, dir string) {
+	files, _ := filepath.Glob(filepath.Join(dir, "*.json"))
+	if len(files) == 0 {
+		return
+	}
+	if keep := os.Getenv("GOSYM_KEEP_SQLTRACE"); keep != "" {
+		os.MkdirAll(keep, 0o755)
+		for _, f := range files {
+			if b, err := os.ReadFile(f); err == nil {
+				os.WriteFile(filepath.Join(keep, filepath.Base(f)), b, 0o644)
+			}
+		}
+	}
+	tool := filepath.Join(verifDir, "bin", "sqlcheck")
+	if _, err := os.Stat(tool); err != nil {
+		env.sqlMismatch = append(env.sqlMismatch, "relational model not validated: "+tool+" is missing (run the setup command)")
+		return
+	}
+	out, err := exec.Command(tool, files...).CombinedOutput()
+	env.sqlTraces += len(files)
+	for _, l := range strings.Split(string(out), "\n") {
+		if strings.HasPrefix(l, "MISMATCH") {
+			env.sqlMismatch = append(env.sqlMismatch, "relational model disagrees with SQLite: "+l)
+		}
+	}
+	if err != nil && len(env.sqlMismatch) == 0 {
+		env.sqlMismatch = append(env.sqlMismatch, "sqlcheck failed: "+err.Error()+" "+string(out))
+	}
 }
 
 func cmdReplay(args []string) int {
